@@ -10,6 +10,14 @@ glyph order <- new glyph).
 A case = a generated font (built through the public API, optionally saved and re-opened so that glyphs are
 lazily / shallowly loaded, optionally edited further) + the object picked from it + operations:
   ["roundtrip", "dict"|"pickle", "alone"|"infont"]   data dictionary or pickled form -> NEW object of the kind
+  ["roundtrip", form, target, {"before": bool, "during": [k, ...]}]
+                                                      ... a new object that somebody LOOKS AT: `before` = the derived,
+                                                      lazily built public data of the new object are read before the data
+                                                      are fed (unicode data, references, bounds, keys ... of the still
+                                                      empty object, as a glyph overview does as soon as a layer exists);
+                                                      `during` = an observer on the target's notification centre reads
+                                                      them while the data come in (at the k-th announcement of each
+                                                      kind per object, e.g. the k-th Layer.GlyphAdded of a layer)
   ["keys", whitelist, blacklist]                      keys of the data dictionary
   ["partial", whitelist, blacklist]                   filtered data -> new object
 """
@@ -33,11 +41,14 @@ RULE = ("generated fonts (1-3 layers, 0-5 glyphs each with contours/components/a
         "UFO 3 / UFO 2 / zipped UFO 3 and re-opened with unread / partly read / fully read glyphs and unread images/data, some with an image "
         "file named by another tool; then optionally edited: delete/rename/replace glyphs, clear/reverse contours, remove "
         "anchors/components/guidelines, delete layers/images/data, change default layer ...) x picked object of each of the "
-        "16 kinds x {data dict, pickle} x {new parent-less object, new object inside a font} + keys/partial ops with "
-        "whitelist/blacklist; the original is serialized untouched (the model's input is taken from an identically made "
+        "16 kinds x {data dict, pickle} x {new parent-less object, new object inside a font} x {nobody looks at the new object, "
+        "its derived / lazily built public data are read before the data are fed, an observer of every notification of the "
+        "target's notification centre reads them at the k-th announcement per name and object while the data come in, both} "
+        "+ keys/partial ops with whitelist/blacklist; the original is serialized untouched (the model's input is taken from an identically made "
         "twin); non-trivial = the picked object has content beyond a fresh object's; distinct = distinct case descriptions")
 ASSUMPTIONS = [
-    "defcon with repo_fixes/C14-*.diff applied (font guideline identifiers = F22, Layer.GlyphAdded on rebuild, image-set file names)",
+    "defcon with repo_fixes/C14-*.diff applied (font guideline identifiers = F22, Layer.GlyphAdded on rebuild, image-set file "
+    "names, C14-r2-1: an outline fed in the shallow form is announced)",
     "identifiers in use inside one glyph / among the font guidelines are unique (C10's invariant); otherwise the rebuild "
     "raises AssertionError, which the model reproduces (theorem glyph_rebuild_rejects_duplicate_identifiers)",
     "objects are edited through their attribute API: an Image keeps its eight entries (theorem "
@@ -45,7 +56,13 @@ ASSUMPTIONS = [
     "passed ufoLib's validator (every way in goes through the same setter)",
     "the target is a NEW object of the kind (parent-less; for glyph and layer also freshly made inside a new font; for a "
     "layer set: font.instantiateLayerSet() of a new font, because a LayerSet without a font cannot hold glyphs at all); "
-    "feeding data to an object that already has content is not part of the property and not exercised",
+    "feeding data to an object that already has content is not part of the property and not exercised; a new object that "
+    "has been looked at (getters called, nothing set) is still a new object",
+    "derived public data (unicodeData, component / image references, font.keys(), stored representations) are judged against "
+    "the rebuilt object's own plain data, which are judged against the original's: a unicode map that the ORIGINAL got wrong "
+    "(C09's subject) is not charged to the round trip; the order of glyph names inside one code point is history, not data",
+    "the looking observer reads, it never writes, and it reads nothing that loads a glyph's contours (bounds, area: read before "
+    "and after only), so that the load state of the rebuilt glyphs stays what the data dictionary says",
     "a layer's name and a glyph's name are owned by the container (layer set tuple / layer dict key): a parent-less "
     "Layer rebuilt from layer data has no name (names are compared at layer-set and font level)",
     "Lib.getParent() is not judged (it answers whichever ancestor happens to be cached, in any font); the lib's "
@@ -334,6 +351,19 @@ HISTORY_OPS = ["delGlyph", "renameGlyph", "clearContours", "reverseContour", "re
                "appendPoint", "removeComponent", "clearGlyphImage", "setUnicodes", "contourClear"]
 
 
+def g_look(rng):
+    """who looks at the new object, and when (None: nobody - the plain round trip)"""
+    if rng.random() < 0.5:
+        return None
+    before = rng.random() < 0.6
+    during = []
+    if rng.random() < 0.6:
+        during = rng.choice([[1], [1, 2, 3, 4, 5], [2], [rng.randint(1, 5)], [1, 3], [2, 4]])
+    if not before and not during:
+        before = True
+    return dict(before=before, during=sorted(during))
+
+
 def g_case(rng, tier, kind=None):
     size = rng.choice([0, 1, 1, 2, 2])
     via = rng.choice(["api", "api", "api", "api", "ufo3", "ufo3", "ufo3", "ufo2", "ufoz"])
@@ -352,6 +382,10 @@ def g_case(rng, tier, kind=None):
     ops = [["roundtrip", "dict", "alone"], ["roundtrip", "pickle", "alone"]]
     if kind in ("glyph", "layer"):
         ops.append(["roundtrip", rng.choice(["dict", "pickle"]), "infont"])
+    for op in ops:
+        look = g_look(rng)
+        if look is not None:
+            op.append(look)
     keys = [k for k in ("name", "width", "lib", "tempLib", "image", "_contours", "_shallowLoadedContours", "anchors", "layers",
                         "glyphs", "color", "info", "kerning", "guidelines", "text", "pen", "baseGlyph", "identifier",
                         "x", "familyName", "com.a.one", "a.txt", "img1.png", "unknown")]
@@ -384,6 +418,12 @@ def neighbourhood(case, step, rng):
                 ops.append(["roundtrip", "dict", "infont"])
             c["ops"] = ops
             yield c
+            if k in ("font", "layerSet", "layer", "glyph", "groups"):
+                # ... and with somebody looking at the new object before / while the data come in
+                for look in (dict(before=True, during=[]), dict(before=False, during=[1]), dict(before=True, during=[1, 2, 3])):
+                    c2 = json.loads(json.dumps(c))
+                    c2["ops"] = [op + [look] for op in ops]
+                    yield c2
     for via in ("api", "ufo3", "ufo2", "ufoz"):
         c = json.loads(json.dumps(case))
         c["via"] = via
@@ -1009,6 +1049,40 @@ def walk_layer(w, p, l, container, ctx, chain):
     for n in names:
         walk_glyph_all(w, p + "/G/" + cv(n), l[n], l, c2, lchain)
     w.add(p + "/G/@names", [Atom("set")] + [cv(n) for n in names])
+    w.add(p + "/@cmap", [Atom("set")] + cmap_records(l))
+
+
+def cmap_of(layer):
+    """Layer.unicodeData as {code: sorted glyph names} (the order inside one code is history, not data)"""
+    return {code: sorted(names) for code, names in layer.unicodeData.items()}
+
+
+def cmap_from_glyphs(layer):
+    """what the unicode data have to say: the inverse of the glyphs' unicodes"""
+    want = {}
+    for n in layer.keys():
+        for code in layer[n].unicodes:
+            if n not in want.setdefault(code, []):
+                want[code].append(n)
+    return {code: sorted(names) for code, names in want.items()}
+
+
+def cmap_records(layer):
+    """Layer.unicodeData told glyph by glyph, the way the model keeps it: [name, unicodes of the glyph] for every glyph
+    the unicode data list; a record that does not say what the glyph itself says is marked"""
+    by_name = {}
+    for code, names in layer.unicodeData.items():
+        for n in names:
+            by_name.setdefault(n, []).append(code)
+    recs = []
+    for n in sorted(by_name):
+        codes = sorted(by_name[n])
+        own = list(layer[n].unicodes) if n in layer else None
+        if own is not None and codes == sorted(set(own)):
+            recs.append([cv(n), cv(own)])
+        else:
+            recs.append([cv(n), "stale:" + cv(codes)])
+    return recs
 
 
 def walk_layerset(w, p, ls, container, ctx, chain):
@@ -1229,6 +1303,251 @@ def relay_probes(font):
     return bad
 
 
+
+# ---------------------------------------------------------------------------------------
+# somebody looks at the new object: before the data are fed, and while they come in
+# ---------------------------------------------------------------------------------------
+
+def _reads(fs):
+    n = 0
+    for f in fs:
+        try:
+            f()
+            n += 1
+        except Exception:      # a reader minds its own errors (a half built font has no default layer yet, ...)
+            pass
+    return n
+
+
+def look_layer(l):
+    """the derived public data of a layer; nothing here loads or changes a glyph's contours"""
+    return _reads([lambda: dict(l.unicodeData), lambda: l.unicodeData.glyphNameForUnicode(65), lambda: l.componentReferences,
+                   lambda: l.imageReferences, lambda: sorted(l.keys()), lambda: len(l), lambda: l.color,
+                   lambda: l.lib.keys(), lambda: l.tempLib.keys()])
+
+
+def look_layerset(ls):
+    return _reads([lambda: list(ls.layerOrder), lambda: ls.defaultLayer, lambda: len(ls)])
+
+
+def look_font_top(f):
+    return _reads([lambda: dict(f.unicodeData), lambda: sorted(f.keys()), lambda: list(f.glyphOrder),
+                   lambda: f.componentReferences, lambda: f.identifiers, lambda: len(f.guidelines)])
+
+
+def look_groups(g):
+    return _reads([lambda: g.getRepresentation("defcon.groups.kerningSide1Groups"),
+                   lambda: g.getRepresentation("defcon.groups.kerningSide2Groups"),
+                   lambda: g.getRepresentation("defcon.groups.kerningGlyphToSide1Group"),
+                   lambda: g.getRepresentation("defcon.groups.kerningGlyphToSide2Group"), lambda: sorted(g.keys())])
+
+
+def look_glyph_light(g):
+    """what can be read of a glyph without loading its contours"""
+    return _reads([lambda: g.name, lambda: list(g.unicodes), lambda: g.width, lambda: sorted(g.identifiers),
+                   lambda: len(g.components), lambda: len(g.anchors), lambda: len(g.guidelines)])
+
+
+def look_at(kind, o):
+    """`before`: every derived / lazily built public datum of a NEW (still empty) object of the kind is read once"""
+    if kind == "font":
+        n = look_font_top(o) + look_layerset(o.layers) + sum(look_layer(l) for l in o.layers) + look_groups(o.groups)
+        n += _reads([lambda: o.bounds, lambda: o.controlPointBounds, lambda: o.info.familyName, lambda: len(o.kerning),
+                     lambda: o.features.text, lambda: o.lib.keys(), lambda: o.tempLib.keys(), lambda: o.images.fileNames,
+                     lambda: o.data.fileNames, lambda: o.kerning.find(("A", "B"))])
+        return n
+    if kind == "layerSet":
+        return look_layerset(o) + sum(look_layer(l) for l in o)
+    if kind == "layer":
+        return look_layer(o) + _reads([lambda: o.bounds, lambda: o.controlPointBounds, lambda: o.glyphsWithOutlines])
+    if kind == "glyph":
+        return look_glyph_light(o) + _reads([lambda: o.bounds, lambda: o.controlPointBounds, lambda: o.area, lambda: len(o),
+                                             lambda: o.lib.keys(), lambda: o.tempLib.keys(), lambda: o.image.fileName,
+                                             lambda: o.leftMargin, lambda: o.note])
+    if kind == "contour":
+        return _reads([lambda: o.bounds, lambda: o.controlPointBounds, lambda: o.area, lambda: o.clockwise, lambda: len(o),
+                       lambda: o.segments, lambda: o.open])
+    if kind == "component":
+        return _reads([lambda: o.bounds, lambda: o.controlPointBounds, lambda: o.baseGlyph, lambda: o.transformation])
+    if kind == "groups":
+        return look_groups(o)
+    if kind in ("imageSet", "dataSet"):
+        return _reads([lambda: list(o.fileNames), lambda: o.unreferencedFileNames if kind == "imageSet" else None])
+    if kind == "info":
+        return _reads([lambda: o.familyName, lambda: o.unitsPerEm, lambda: o.postscriptBlueValues])
+    if kind == "features":
+        return _reads([lambda: o.text])
+    # lib, kerning, anchor, guideline, image: dictionaries
+    return _reads([lambda: sorted(o.keys(), key=repr), lambda: len(o), lambda: dict(o)])
+
+
+class Peeker(object):
+    """`during`: an observer of every notification of the target's notification centre that reads the derived public
+    data of the announcing object at the k-th announcement of that name by that object, for the k of the schedule
+    (what a glyph overview / character map does on Layer.GlyphAdded).  It reads only; what it reads never loads contours."""
+
+    def __init__(self, schedule):
+        self.schedule = set(schedule)
+        self.count = {}
+        self.reads = 0
+        self.heard = 0
+        self.keep = []
+
+    def cb(self, notification):
+        o = notification.object
+        self.keep.append(o)
+        self.heard += 1
+        key = (notification.name, id(o))
+        k = self.count[key] = self.count.get(key, 0) + 1
+        if k not in self.schedule:
+            return
+        cls = type(o).__name__
+        if cls == "Layer":
+            self.reads += look_layer(o)
+            font = o.font
+        elif cls == "LayerSet":
+            self.reads += look_layerset(o)
+            font = o.font
+        elif cls == "Font":
+            font = o
+        elif cls == "Glyph":
+            self.reads += look_glyph_light(o)
+            font = None
+        elif cls == "Groups":
+            self.reads += look_groups(o)
+            font = None
+        else:
+            return
+        if font is not None:
+            self.reads += look_font_top(font)
+
+
+def eff_look(kind, op):
+    """(before, during) of a round trip; an observer needs a notification centre, i.e. a target inside a font"""
+    look = op[3] if len(op) > 3 and op[3] else None
+    if look is None:
+        return False, []
+    target = op[2]
+    has_centre = kind in ("font", "layerSet") or (target == "infont" and kind in ("glyph", "layer"))
+    return bool(look.get("before")), (sorted(look.get("during") or []) if has_centre else [])
+
+
+# ---------------------------------------------------------------------------------------
+# derived public data of the rebuilt object: they must say what its plain data say
+# ---------------------------------------------------------------------------------------
+
+def _layers_of(kind, o):
+    if kind == "font":
+        return [("layers/L/" + cv(l.name), l) for l in o.layers]
+    if kind == "layerSet":
+        return [("layers/L/" + cv(l.name), l) for l in o]
+    if kind == "layer":
+        return [("layer", o)]
+    return []
+
+
+def _cached_metrics(g):
+    return (cv(g.bounds), cv(g.controlPointBounds), cv(g.area))
+
+
+def derived_bad(kind, new, has_font):
+    """[(what, path, from the plain data, answered)] - public getters of the rebuilt object that are computed from its data
+    (and possibly kept in a lazily built, incrementally updated cache) and do not say what these data say"""
+    bad = []
+    for p, l in _layers_of(kind, new):
+        want, got = cmap_from_glyphs(l), cmap_of(l)
+        if want != got:
+            codes = sorted(c for c in set(want) | set(got) if want.get(c) != got.get(c))
+            bad.append(("unicodeData", p, {c: want.get(c) for c in codes[:6]}, {c: got.get(c) for c in codes[:6]}))
+        want = {}
+        for n in l.keys():
+            for c in l[n].components:
+                want.setdefault(c.baseGlyph, set()).add(n)
+        got = {k: set(v) for k, v in l.componentReferences.items()}
+        if want != got:
+            bad.append(("componentReferences", p, cv({k: sorted(v) for k, v in want.items()}),
+                        cv({k: sorted(v) for k, v in got.items()})))
+        want = {}
+        for n in l.keys():
+            fn = l[n].image.fileName
+            if fn is not None:
+                want.setdefault(fn, []).append(n)
+        want = {k: sorted(v) for k, v in want.items()}
+        got = {k: sorted(v) for k, v in l.imageReferences.items()}
+        if want != got:
+            bad.append(("imageReferences", p, cv(want), cv(got)))
+    if kind == "font":
+        d = new.layers.defaultLayer
+        if d is not None:
+            if sorted(new.keys()) != sorted(d.keys()):
+                bad.append(("font.keys", "layers/default", cv(sorted(d.keys())), cv(sorted(new.keys()))))
+            elif any(new[n] is not d[n] for n in d.keys()):
+                bad.append(("font.getitem", "layers/default", "the default layer's glyph objects", "other objects"))
+            if cmap_of(d) != {c: sorted(v) for c, v in new.unicodeData.items()}:
+                bad.append(("font.unicodeData", "layers/default", cv(cmap_of(d)),
+                            cv({c: sorted(v) for c, v in new.unicodeData.items()})))
+    if has_font:
+        # representations kept by objects inside a font: what is answered now against the same getter after every
+        # stored representation was dropped
+        for gpath, g in _glyphs_of(kind, new):
+            holders = [g] + list(g) + list(g.components)
+
+            def drop():
+                for x in holders:
+                    x.destroyAllRepresentations()
+            # (a factory that raises - outlines that are not drawable - leaves an empty entry behind, which
+            # Contour.move trips over: nothing of a failed attempt is left in place)
+            try:
+                got = _cached_metrics(g)
+            except Exception:
+                got = None
+            drop()
+            if got is None:
+                continue
+            try:
+                want = _cached_metrics(g)
+            except Exception:
+                drop()
+                continue
+            if want != got:
+                bad.append(("glyph.representations", gpath, want, got))
+                break
+        groups = new.groups if kind == "font" else (new if kind == "groups" else None)
+        if groups is not None:
+            names = ["defcon.groups.kerningSide1Groups", "defcon.groups.kerningSide2Groups",
+                     "defcon.groups.kerningGlyphToSide1Group", "defcon.groups.kerningGlyphToSide2Group"]
+            try:
+                got = [cv(groups.getRepresentation(n)) for n in names]
+                groups.destroyAllRepresentations()
+                want = [cv(groups.getRepresentation(n)) for n in names]
+                if want != got:
+                    bad.append(("groups.representations", "groups", want, got))
+            except Exception:
+                pass
+    return bad
+
+
+def unicode_relay(kind, new):
+    """change propagation into the unicode data of the rebuilt layers (inside a font): a glyph that gets other unicodes
+    moves in the layer's unicode data.  Returns a list of failure details."""
+    bad = []
+    for p, l in _layers_of(kind, new):
+        names = sorted(l.keys())
+        for i, n in enumerate(names[:3]):
+            g = l[n]
+            old = list(g.unicodes)
+            code = 0xF0000 + i
+            g.unicodes = [code]
+            ud = l.unicodeData
+            if ud.get(code) != [n]:
+                bad.append("%s: glyph %s got unicode %d, unicodeData[%d] = %r" % (p, n, code, code, ud.get(code)))
+            elif any(n in ud.get(c, []) for c in old):
+                bad.append("%s: glyph %s lost unicodes %r, unicodeData still lists it" % (p, n, old))
+            if bad:
+                return bad
+    return bad
+
+
 # ---------------------------------------------------------------------------------------
 # one case on the implementation
 # ---------------------------------------------------------------------------------------
@@ -1365,11 +1684,29 @@ def run_impl(case):
             st("form." + ("pickle" if fk == "blob" else "dict"))
             st("target." + target)
             new, ctx, container, chain = make_target(kind, orig, target, keep)
+            before, during = eff_look(kind, op) if op[0] == "roundtrip" else (False, [])
+            if before:
+                st("look.before")
+                st("look.before.reads", look_at(kind, new))
+            peeker = None
+            if during and new.dispatcher is not None:
+                peeker = Peeker(during)
+                keep.append(peeker)
+                new.dispatcher.addObserver(peeker, "cb", None, None)
+                st("look.during")
+            if not before and peeker is None:
+                st("look.none")
             try:
-                if fk == "blob":
-                    new.deserialize(fv)
-                else:
-                    new.setDataFromSerialization(fv)
+                try:
+                    if fk == "blob":
+                        new.deserialize(fv)
+                    else:
+                        new.setDataFromSerialization(fv)
+                finally:
+                    if peeker is not None:
+                        new.dispatcher.removeObserver(peeker, None, None)
+                        st("look.during.heard", peeker.heard)
+                        st("look.during.reads", peeker.reads)
             except Exception as e:
                 outs.append([Atom("err"), Atom(exc_name(e))])
                 st("err." + exc_name(e))
@@ -1380,6 +1717,8 @@ def run_impl(case):
             w = walk_any(kind, new, ctx, container, chain)
             has_font = kind in ("font", "layerSet") or target == "infont"
             dispatcher = new.dispatcher if has_font else None
+            # (before the probes edit anything: an edit repairs what a stale cache says)
+            derived = derived_bad(kind, new, has_font) if op[0] == "roundtrip" else []
             probes = run_probes(w, dispatcher)
             facts = list(w.facts)
             for path, (ok, missing) in probes.items():
@@ -1395,6 +1734,12 @@ def run_impl(case):
                 first = diffs[0]
                 viol.append(dict(clause="C14/data-differs", signature=sig("data-differs", kind, _field_of(first)), op=op,
                                  path=first, original=d0.get(first), rebuilt=d1.get(first), n_diffs=len(diffs)))
+            for what, p, want, got in derived:
+                # equal observable data: the rebuilt object's plain data equal the original's (judged above), so what is
+                # derived from them has to be what the original answers as well
+                viol.append(dict(clause="C14/derived-data", signature=sig("derived-data", kind, what), op=op, path=p,
+                                 from_its_data=want, rebuilt_answers=got))
+                break
             for p, bad in w.parent_bad:
                 viol.append(dict(clause="C14/parent-link", signature=sig("parent-link", kind, _field_of(p)), op=op,
                                  path=p, accessors=bad))
@@ -1410,6 +1755,11 @@ def run_impl(case):
                 if sorted(g.identifiers) != glyph_ids_in_use(g):
                     viol.append(dict(clause="C14/identifier-registry", signature=sig("identifier-registry", kind, "glyph"),
                                      op=op, path=gpath, registry=sorted(g.identifiers), in_use=glyph_ids_in_use(g)))
+                    break
+            if has_font and kind in ("font", "layerSet", "layer"):
+                for detail in unicode_relay(kind, new):
+                    viol.append(dict(clause="C14/unicode-relay", signature=sig("unicode-relay", kind, "rebuilt"), op=op,
+                                     detail=detail))
                     break
             if kind == "font":
                 used = sorted(a.identifier for a in new.guidelines if a.identifier is not None)
@@ -1518,7 +1868,11 @@ def model_lines(case):
     for op in case["ops"]:
         if op[0] == "roundtrip":
             head = "roundtrip" if op[2] == "alone" else "roundtrip-in-font"
-            lines.append(Atom("(%s %s %s none none)" % (head, kind, struct)))
+            before, during = eff_look(kind, op)
+            look = ""
+            if before or during:
+                look = " (look %s (%s))" % ("true" if before else "false", " ".join(str(int(k)) for k in during))
+            lines.append(Atom("(%s %s %s none none%s)" % (head, kind, struct, look)))
         elif op[0] == "partial":
             lines.append(Atom("(roundtrip %s %s %s %s)" % (kind, struct, _optkeys(op[1]), _optkeys(op[2]))))
         elif op[0] == "keys":
